@@ -461,7 +461,7 @@ def status_gates_at(fn, site, fresh_only=True, subject=None):
         if subject is not None:
             if not subject(s):
                 continue
-        elif fresh_only and not any(r["k"] == "call" and r["call"].is_("get_status") for r in s["subject"]):
+        elif fresh_only and not any(r["k"] == "call" and (r["call"].is_("get_status") or r["call"].matches(r"Actor(Cell|Properties)::set_status$")) for r in s["subject"]):
             continue
         for edge, pol in ((s["true_edge"], True), (s["false_edge"], False)):
             if edge and fn.edge_dominates(edge, site):
@@ -476,7 +476,7 @@ def status_gates_at(fn, site, fresh_only=True, subject=None):
         if subject is not None:
             if not subject(test):
                 continue
-        elif fresh_only and not any(r["k"] == "call" and r["call"].is_("get_status") for r in subj):
+        elif fresh_only and not any(r["k"] == "call" and (r["call"].is_("get_status") or r["call"].matches(r"Actor(Cell|Properties)::set_status$")) for r in subj):
             continue
         by_target = {}
         for nm, tgt in info["edges"].items():
